@@ -331,3 +331,88 @@ def depslog(pid, tier, replay):
                       "SPECIFICATION Spec\nCONSTANT MaxOps = %d\nINVARIANT TableIsHistory\nINVARIANT ReloadAgrees\nCHECK_DEADLOCK FALSE\n" % (4 if q else 6),
                       "DepsLogTrace", [("tear1", 2 if q else 6), ("tear2", 2 if q else 6), ("damage", 2 if q else 6), ("recompact", 3 if q else 8)],
                       40 if q else 600, {"C09"})
+
+
+@reg("C15")
+def depfile(pid, tier, replay):
+    t0 = time.time()
+    bins = nbuild.build("dbg", ["fn"])
+    wd = scratch(pid)
+    known = {k["id"]: k for k in load_known_findings() if k.get("status") == "open" and pid in k.get("properties", [])}
+    try:
+        found, known_hits, nviol = [], {}, 0
+
+        def judge(b, path_hint):
+            """b: mismatch row from fn check.  Returns None or text."""
+            nonlocal nviol
+            text = bytes(b["in"])
+            # signature of KF-DEPFILE-BSLASH-DOLLAR: a name with a backslash directly before '$' (written \$$)
+            kf = "KF-DEPFILE-BSLASH-DOLLAR" if b"\\$$" in text else ""
+            if kf and kf in known:
+                w, n = known_hits.get(kf, (known[kf]["what"], 0))
+                known_hits[kf] = (w, n + 1)
+                return
+            nviol += 1
+            if len(found) < 25:
+                p = path_hint or save_replay(pid, "vec-%d" % nviol, {"property": pid, "in": b["in"], "exp": b["exp"], "got": b["got"]})
+                found.append((p, "depfile %r read as %s, the compilers' dialect means %s" % (text, json.dumps(b["got"])[:150], json.dumps(b["exp"])[:150])))
+
+        if replay:
+            rp = json.load(open(replay))
+            vec = os.path.join(wd, "v.ndjson")
+            open(vec, "w").write(json.dumps({"in": rp["in"], "exp": rp["exp"]}) + "\n")
+            n, bad = fnlib.fn_check(bins["fn"], "depfile", vec, wd)
+            for b in bad:
+                judge(b, replay)
+            return report(pid, found, known_hits)
+        fams = ["dep3", "dep111", "tgt2", "rules", "reject", "long", "dep22"]
+        K = 30 if tier == "quick" else 400
+        def mc(w):
+            r = fnlib.mc_run("Depfile.tla", "SPECIFICATION Spec\nCONSTANT Which = \"%s\"\nINVARIANT RoundTrip\nINVARIANT NoColonRejected\nCHECK_DEADLOCK FALSE\n" % w,
+                             os.path.join(wd, w), workers=4, env={"K": K}, xmx="4g")
+            if r["error"]:
+                raise Broken("Depfile model check (%s) failed: %s\n%s" % (w, r["error"], r["out"][-1500:]))
+            return r
+        for w in fams:
+            os.makedirs(os.path.join(wd, w))
+        mcs = parallel(mc, fams)
+        vecs = parallel(lambda w: fnlib.export_vectors("Depfile.tla", os.path.join(wd, w), {"WHICH": w, "K": K},
+                                                       cfg_text="INIT Init\nNEXT Next\nCONSTANT Which = \"reject\"\nCHECK_DEADLOCK FALSE\n", xmx="6g"), fams)
+        # collisions (two rule lists, one text) computed over the union; all must lie outside the structural fragment
+        by_text = {}
+        rows = []
+        for vp in vecs:
+            for line in open(vp):
+                j = json.loads(line)
+                rows.append(j)
+                by_text.setdefault(bytes(j["in"]), []).append(j)
+        amb = 0
+        for t, js in by_text.items():
+            means = {json.dumps(j["exp"], sort_keys=True) for j in js}
+            if len(means) > 1:
+                amb += 1
+                if sum(1 for j in js if j["frag"]) > 1 and len({json.dumps(j["exp"], sort_keys=True) for j in js if j["frag"]}) > 1:
+                    raise Broken("two inputs of the injective fragment have the same encoding: %r" % t)
+        inv = os.path.join(wd, "frag.ndjson")
+        nfrag = 0
+        with open(inv, "w") as f:
+            for j in rows:
+                if j["frag"]:
+                    nfrag += 1
+                    f.write(json.dumps({"in": j["in"], "exp": j["exp"]}) + "\n")
+        nvec, bad = fnlib.fn_check(bins["fn"], "depfile", inv, wd)
+        for b in bad:
+            judge(b, None)
+        write_evidence(pid, tier, "model_checking", {
+            "states": sum(m["distinct"] for m in mcs), "transitions": sum(m["states"] for m in mcs),
+            "traces_validated_against_impl": nvec,
+            "samples": [{"text": fnlib.bytes_to_text(j["in"]), "outs": [fnlib.bytes_to_text(o) for o in j["exp"]["outs"]], "ins": [fnlib.bytes_to_text(o) for o in j["exp"]["ins"]]} for j in rows[5000:5003] + rows[-2:]],
+            "evaluations": len(rows), "distinct_nontrivial": nfrag,
+            "rule": "rule lists over names of <= 3 characters from {a, space, backslash, #, $, :, %%, 0x80} (one, two, three dependencies, hostile targets, two rules), "
+                    "24-name lists over longer names, the rejection cases; 4 layouts x 2 compiler dialects; one TLC state each (Decode(Encode(x)) = x inside the injective fragment); "
+                    "every text of the fragment is an implementation test of DepfileParser::Parse with the expected reading",
+            "exhaustive": True, "texts": len(by_text), "colliding_texts_outside_fragment": amb, "known_finding_hits": {k: n for k, (w, n) in known_hits.items()},
+        }, time.time() - t0, nviol, ["TLC", "Depfile.tla: Encode as the dialect GCC/Clang write, Decode as its documented reading"])
+        return report(pid, found, known_hits)
+    finally:
+        shutil.rmtree(wd, ignore_errors=True)
